@@ -225,7 +225,7 @@ def r6(ctx):
     ctx.floor("per-exchange filters", n, 2)
     for fn, cmp_f, ret_f in (("find_exchange_id", "key", "value"), ("find_exchange_index", "value", "key")):
         fb = ctx.fbody(name=fn, self_adt=EIM, trait="")
-        oks = [(g_, term) for g_, term, bi in fb.local_cases(0) if term[0] == "agg" and term[1].endswith("Result::Ok")]
+        oks = [(g_, term) for g_, term, bi in fb.expanded_cases(0) if term[0] == "agg" and term[1].endswith("Result::Ok")]
         ok = len(oks) == 1 and render(oks[0][1][3][0]) == "self.exchange." + ret_f
         if ok:
             gg = oks[0][0]
